@@ -228,6 +228,17 @@ def random_cases(family, rng, count):
                         "pre": [{"k": "shift_x", "v": R(sh)}, {"k": "scale_x", "v": R(sc)}], "n": rng.choice([2, 3, 5, 9, n]), "method": "linear"})
             out.append({"fn": "winterp", "mode": "n", "x": X, "y": Y, "n": rng.choice([2, 3, 5, 9, 17, 33, n, 2 * n + 1]),
                         "method": rng.choice(["linear", "linear", "constant", "cubic", "spline"]) if n >= 4 else "linear"})
+            if rng.random() < 0.3:
+                # the request follows a REFUSED one (a grid that misses an end point, as long as the series or shorter; or an unknown
+                # method) whose ValueError the caller caught: the refused grid must have left no trace
+                bad = [xs[0] + span * Fraction(1, 16)] + [xs[0] + span * Fraction(k, 8) for k in range(2, rng.choice([4, 7]))] + [xs[-1]]
+                if rng.random() < 0.4:
+                    bad = [xs[0] + span * Fraction(1, 16)] + list(xs[1:])
+                tr = rng.choice([{"k": "interpolate_grid", "q": [R(v) for v in bad], "method": "linear"},
+                                 {"k": "interpolate_grid", "q": [R(v) for v in bad], "method": "constant", "qcontainer": "list"},
+                                 {"k": "interpolate_n", "n": rng.choice([3, n]), "method": "nearest"}])
+                out.append({"fn": "winterp", "mode": "n", "x0": X, "y0": Y, "x": X, "y": Y, "pre": [{"k": "try", "op": tr}],
+                            "n": rng.choice([2, 3, 5, 9, n]), "method": rng.choice(["linear", "constant"])})
             # ... and after the series has been made denser than its reference and then cut (seed C13i: a grid anchored on the
             # reference series): interpolate(m), m - 1 a power of two, then truncate_by_index / truncate_by_value - the judge gets
             # the exact rational series after that history
